@@ -118,21 +118,26 @@ def makeOffsets (k : Kind) (ijMax offCorner : Int) (n : Nat) : List Int :=
 
 def slotSize (labels : Labels) : Nat := (labels.map (fun p => p.2.length)).foldl max 0
 
+/-- `_updateDimensionsFromAsciiLines` of each class: the (ijMax, corner lines) the reader infers from a text
+(a fresh Cartesian map keeps the zeros of `__init__`) -/
+def readerDims (k : Kind) (lines : List (List String)) : Int × Int :=
+  let maxCol : Int := max 0 (maxD 0 (lines.map (fun l => (l.length : Int))))
+  match k with
+  | .cart => (0, 0)
+  | .third | .full => (maxCol - 1, ((lines.getLast?.getD []).length : Int) - 1)
+  | .tips => ((maxCol - 1) / 2, 0)
+
 /-- `AsciiMap.readAscii` on the token lines of a text; `none` where Python raises
 (empty text: `li` unbound; no label at all: `max()` of an empty sequence). -/
 def readAscii (k : Kind) (lines : List (List String)) : Option AMap :=
   if lines.isEmpty then none else
-  let maxCol : Int := maxD 0 (lines.map (fun l => (l.length : Int)))
-  let maxCol := max 0 maxCol
+  let maxCol : Int := max 0 (maxD 0 (lines.map (fun l => (l.length : Int))))
   let maxLine : Int := lines.length
-  let (ijMax, offCorner) : Int × Int := match k with
-    | .cart => (0, 0)
-    | .third | .full => (maxCol - 1, ((lines.getLast?.getD []).length : Int) - 1)
-    | .tips => ((maxCol - 1) / 2, 0)
-  let labels := readLabels k ijMax offCorner lines
+  let labels := readLabels k (readerDims k lines).1 (readerDims k lines).2 lines
   if labels.isEmpty then none else
-  some { lines := lines, offsets := makeOffsets k ijMax offCorner lines.length, labels := labels,
-         maxCol := maxCol, maxLine := maxLine, ijMax := ijMax, offCorner := offCorner, slot := slotSize labels }
+  some { lines := lines, offsets := makeOffsets k (readerDims k lines).1 (readerDims k lines).2 lines.length,
+         labels := labels, maxCol := maxCol, maxLine := maxLine, ijMax := (readerDims k lines).1,
+         offCorner := (readerDims k lines).2, slot := slotSize labels }
 
 /-! ### writer -/
 
@@ -178,10 +183,13 @@ def dimsFromData (k : Kind) (labels : Labels) : Option (Int × Int × Int × Int
     else some (ijMax, off, ijMax + 1, ijMax * 4 + 1 - off * 2)
   | .tips => some (ijMax, 0, ijMax * 2 + 1, ijMax * 2 + 1)
 
+/-- `s.replace(" ", "")`: every blank removed -/
+def stripBlanks (s : String) : String := String.ofList (s.toList.filter (· != ' '))
+
 /-- `str(self.asciiLabelByIndices.get(ij, PLACEHOLDER)).replace(" ", "")` (the placeholder has no blank) -/
 def tokenAt (labels : Labels) (c : Cell) : String :=
   match get? labels c with
-  | some v => v.replace " " ""
+  | some v => stripBlanks v
   | none => PLACEHOLDER
 
 /-- `AsciiMap.gridContentsToAscii` on a fresh map holding `labels`; `none` = ValueError -/
